@@ -62,23 +62,30 @@ Proof. vm_compute. repeat split; reflexivity. Qed.
 (* bounded exactness by evaluation of the model: every integer 0 <= i <= 100000 is printed as
    its decimal spelling.  (Integers with at most 6 significant digits beyond this bound are
    covered by the differential run only.) *)
-Fixpoint all_upto (n : nat) : bool :=
-  match n with O => int_prints_exactly 0 | S k => int_prints_exactly (Z.of_nat n) && all_upto k end.
+Fixpoint all_from (fuel : nat) (i : N) : bool :=
+  match fuel with O => true | S f => int_prints_exactly (Z.of_N i) && all_from f (i + 1) end.
 
-Lemma all_upto_spec : forall n, all_upto n = true -> forall k, (k <= n)%nat -> int_prints_exactly (Z.of_nat k) = true.
+Lemma all_from_spec : forall fuel i, all_from fuel i = true ->
+  forall k, i <= k -> k < i + N.of_nat fuel -> int_prints_exactly (Z.of_N k) = true.
 Proof.
-  induction n as [|n IH]; intros H k Hk.
-  - assert (k = O) by lia. subst k. exact H.
-  - cbn [all_upto] in H. apply andb_prop in H. destruct H as [H1 H2].
-    destruct (Nat.eq_dec k (S n)) as [->|Hne]; [exact H1 | apply IH; [exact H2 | lia]].
+  induction fuel as [|f IH]; intros i H k Hk1 Hk2; [lia|].
+  cbn [all_from] in H. apply andb_prop in H. destruct H as [H1 H2].
+  destruct (N.eq_dec k i) as [->|Hne]; [exact H1|].
+  apply (IH (i + 1) H2); lia.
 Qed.
 
-Lemma all_upto_100000 : all_upto 100000 = true.
+Definition bound_nat : nat := N.to_nat 100001.
+
+Lemma all_from_bound : all_from bound_nat 0 = true.
+Proof. vm_compute. reflexivity. Qed.
+
+Lemma bound_nat_N : N.of_nat bound_nat = 100001.
 Proof. vm_compute. reflexivity. Qed.
 
 Theorem int_exact_upto_100000 : forall i : Z, (0 <= i <= 100000)%Z -> int_prints_exactly i = true.
 Proof.
-  intros i Hi. rewrite <- (Z2Nat.id i) by lia. apply (all_upto_spec 100000 all_upto_100000). lia.
+  intros i Hi. rewrite <- (Z2N.id i) by lia.
+  apply (all_from_spec bound_nat 0 all_from_bound); [lia|]. rewrite bound_nat_N. lia.
 Qed.
 
 (* six significant digits: exact decimals with few digits survive, e.g. 0.5, 7.5, 0.133333 *)
